@@ -217,7 +217,7 @@ def stepSave (st : St) (ins impl : List String) : Option (St × String) := do
         | some w => some (whyName w)
         | none =>
           if committed && wrote != newLen then some "C14.length"
-          else if !finalOK then some "C14.final"
+          else if !finalOK then some "C14.content"
           else none
       pure ({ st with fs := compact final st.dest (2305843009213693952 + saveNo) known (1000000 :: fdsOf evs), known := dedup known, saveNo := saveNo },
         verdict agree spec modelStr)
